@@ -41,6 +41,7 @@ type Contract struct {
 	Loops       map[int]*LoopSpec
 	Asserts     []*Clause
 	GhostSets   []*Clause
+	Joins       []*Clause
 	Refines     []string
 	Trusted     bool
 	Opaque      bool // results are fresh unknowns; no other effect
@@ -167,7 +168,7 @@ func (cs *ContractSet) LoadContractFile(path, pkg string) error {
 		}
 		lines = append(lines, rawLine{t, n})
 	}
-	keywords := []string{"func ", "pred ", "ghost ", "uf ", "axiom ", "invariant ", "fieldrange ", "requires", "ensures", "modifies", "decreases", "loop ", "assert", "ghostset", "refines", "trusted", "opaque", "assumption ", "fieldproto ", "role ", "allocates", "interface"}
+	keywords := []string{"func ", "pred ", "ghost ", "uf ", "axiom ", "invariant ", "fieldrange ", "requires", "ensures", "modifies", "decreases", "loop ", "assert", "ghostset", "refines", "trusted", "opaque", "assumption ", "fieldproto ", "role ", "allocates", "interface", "join "}
 	isKw := func(s string) bool {
 		s = strings.TrimSpace(s)
 		for _, k := range keywords {
@@ -435,6 +436,27 @@ func (cs *ContractSet) LoadContractFile(path, pkg string) error {
 				} else {
 					cur.GhostSets = append(cur.GhostSets, c)
 				}
+			case strings.HasPrefix(t, "join "):
+				// join at ANCHOR : go#K ; EXPR   (apply the spawned function's contract when its result is received)
+				rest := strings.TrimSpace(strings.TrimPrefix(t, "join "))
+				rest = strings.TrimPrefix(rest, "at ")
+				i := strings.Index(rest, ":")
+				if i < 0 {
+					return fail(l, "bad join clause")
+				}
+				c := &Clause{Kind: "join", Anchor: strings.TrimSpace(rest[:i]), File: path, Line: l.line}
+				body := strings.TrimSpace(rest[i+1:])
+				parts := strings.SplitN(body, ";", 2)
+				c.Target = strings.TrimSpace(parts[0])
+				if len(parts) == 2 && strings.TrimSpace(parts[1]) != "" {
+					e, err := ParseExpr(strings.TrimSpace(parts[1]))
+					if err != nil {
+						return fail(l, "%v", err)
+					}
+					c.Expr = e
+					c.Src = strings.TrimSpace(parts[1])
+				}
+				cur.Joins = append(cur.Joins, c)
 			case strings.HasPrefix(t, "refines"):
 				cur.Refines = append(cur.Refines, strings.TrimSpace(t[len("refines"):]))
 			case strings.HasPrefix(t, "trusted"):
